@@ -263,6 +263,27 @@ func runC10(w *World, r *Report, tier string) {
 	for i, is := range li.issues {
 		r.Fail("R6", fmt.Sprintf("xmpp.SendMissingStz#pairing#%d", i+1), w.pos(smz.Pos()), is+" — the next acknowledgement answer blocks forever in Lock()")
 	}
+	// the newest held entry (Uslice[len-1]) is read only when the queue is known to be non-empty: an <a/> for an empty
+	// queue must not panic
+	{
+		nIdx := 0
+		allInstrsH(smz, func(in ssa.Instruction) {
+			ia, ok := in.(*ssa.IndexAddr)
+			if !ok || !strings.HasSuffix(w.nf(ia.X, 0), ".Uslice") {
+				return
+			}
+			if isRangeIndex(ia.Parent(), ia.Index) {
+				return
+			}
+			nIdx++
+			guard := edgesAsserting(smz, func(c ssa.Value, truth bool) bool {
+				cn := w.condNF(c, truth)
+				return strings.HasPrefix(cn, "le(builtin.len(") && strings.HasSuffix(cn, ".Uslice),0)=false") || (strings.HasPrefix(cn, "eq(0,builtin.len(") && strings.HasSuffix(cn, ".Uslice))=false"))
+			})
+			ok2 := len(guard) > 0 && !reachable(entryLoc(smz), func(x ssa.Instruction) bool { return x == in }, nil, guard)
+			r.Check(ok2, "R4", fmt.Sprintf("xmpp.SendMissingStz#index-guard#%d", nIdx), w.ipos(in), "the queue is indexed without a test that it is non-empty: an acknowledgement answer that arrives while nothing is held panics in the routing goroutine", "dominated by len(Uslice) > 0")
+		})
+	}
 	lastSent := smz.Params[0]
 	pops := w.callsInH(smz, "stanza.UnAckQueue.Pop", "stanza.UnAckQueue.PopN")
 	nPop := 0
@@ -363,8 +384,22 @@ func runC10(w *World, r *Report, tier string) {
 			isSendRaw := w.isCallTo("xmpp.Sender.SendRaw")
 			isSend := w.isCallTo("xmpp.Sender.Send", "xmpp.Sender.SendIQ")
 			walkPaths(Loc{lp.body, 0}, isHeader, nil, 5000, func(path []ssa.Instruction, end pathEnd) {
+				// the error of this iteration's SendRaw decides: nil ⇒ next entry, non-nil ⇒ stop
+				var sr *ssa.Call
+				for _, in := range path {
+					if isSendRaw(in) {
+						sr, _ = in.(*ssa.Call)
+					}
+				}
 				if !isHeader(path[len(path)-1]) {
-					return // leaves the loop (an error stops the retransmission): not a completed iteration
+					// leaves the loop: only because this entry could not be re-sent
+					if sr != nil && !pathAsserts(path, func(c ssa.Value, truth bool) bool { return assertsNonNil(c, truth, sr) }) {
+						bad = "the retransmission stops after an entry that was re-sent successfully: the entries behind it are lost (they have already been taken off the queue)"
+					}
+					return
+				}
+				if sr != nil && !pathAsserts(path, func(c ssa.Value, truth bool) bool { return assertsNil(c, truth, sr) }) {
+					bad = "the retransmission goes on although re-sending an entry failed"
 				}
 				nIter++
 				if countOn(path, isSendRaw) != 1 {
